@@ -1,5 +1,5 @@
 (* Properties/C20.v — term-id text and byte conversions are total and mutually inverse (C20) *)
-From HpoV Require Import Gen.Consts Model.Base Model.Binary Model.TermId Proofs.C20P.
+From HpoV Require Import Gen.Consts Model.Base Model.Binary Model.TermId Run.C20 Proofs.C20M Proofs.C20P.
 
 (* for EVERY unsigned 32-bit id (not only the 10^7 ids of the id space): parsing the rendering
    returns the id.  By induction over the digits, not by enumeration. *)
@@ -36,6 +36,17 @@ Theorem C20_show_is_padded_decimal : forall n, n <= U32_MAX -> exists ds,
   (10000000 <= n -> exists d t, ds = d :: t /\ d <> 48).
 Proof. exact show_padded_decimal. Qed.
 
+(* THE TRANSCRIPTION MEETS THE EXECUTABLE STATEMENT ON EVERY INPUT: what the check evaluates on the crate's
+   observation of the generated cases holds of the model for all ids below 2^32 and all texts; and the
+   statement's own reading of "an unsigned 32-bit decimal number after the three-byte prefix" (expected_parse,
+   written without the model's parser) is what the transcription computes *)
+Theorem C20_model_meets_statement : forall k ids texts, Forall (fun n => n <= U32_MAX) ids ->
+  spec_C20 (k, ids, texts) (run_C20 (k, ids, texts)) = true.
+Proof. exact spec_C20_model. Qed.
+
+Theorem C20_statement_parser_is_transcription : forall s, expected_parse s = encR (parse_id s).
+Proof. exact expected_parse_is_parse_id. Qed.
+
 Print Assumptions C20_parse_show.
 Print Assumptions C20_be_bytes_roundtrip.
 Print Assumptions C20_show_shape.
@@ -43,3 +54,5 @@ Print Assumptions C20_parse_total.
 Print Assumptions C20_parse_accepts_exactly.
 Print Assumptions C20_parse_error_kind.
 Print Assumptions C20_show_is_padded_decimal.
+Print Assumptions C20_model_meets_statement.
+Print Assumptions C20_statement_parser_is_transcription.
